@@ -67,6 +67,44 @@ def exc_is_subclass(cls, parent):
     return False
 
 
+_HQ = {}
+
+
+def has_quantifier(e, _seen=None):
+    # (no cross-call cache: z3 recycles AST ids after garbage collection)
+    seen = _seen if _seen is not None else set()
+    k = e.get_id()
+    if k in seen:
+        return False
+    seen.add(k)
+    if z3.is_quantifier(e):
+        return True
+    if z3.is_app(e):
+        return any(has_quantifier(c, seen) for c in e.children())
+    return False
+
+
+def auto_patterns(var, body):
+    """Triggers for a quantifier: the seq-nth / array-select / function terms of the body
+    that mention the bound variable directly (E-matching instead of model-based search)."""
+    pats = []
+    seen = set()
+
+    def walk(e):
+        if e.get_id() in seen or not z3.is_app(e):
+            return
+        seen.add(e.get_id())
+        k = e.decl().kind()
+        ch = e.children()
+        if k in (z3.Z3_OP_SEQ_NTH, z3.Z3_OP_SELECT, z3.Z3_OP_UNINTERPRETED) and any(c.eq(var) for c in ch):
+            if not any(p.eq(e) for p in pats):
+                pats.append(e)
+        for c in ch:
+            walk(c)
+    walk(body)
+    return pats[:4]
+
+
 class ObRec:
     def __init__(self, oid, kind, label, props, aux):
         self.id = oid
@@ -130,9 +168,13 @@ class CoreMixin:
         self.dec_i = 0
         self.solver = z3.Solver()
         self.solver.set('timeout', self.check_timeout_ms)
+        self.light = z3.Solver()
+        self.light.set('timeout', self.branch_timeout_ms)
         self.st = State()
         self.pc_n = 0
+        self.pc_has_quant = False
         self.wf_seen = set()
+        self.wf_keep = []
         self.path_no = self.paths_run
         self.paths_run += 1
 
@@ -140,7 +182,20 @@ class CoreMixin:
         if z3.is_true(zbool):
             return
         self.solver.add(zbool)
+        # branch feasibility is decided on the quantifier-free part of the path condition
+        # (a weaker condition: may keep an infeasible path alive, never drops a feasible one)
+        if not has_quantifier(zbool):
+            self.light.add(zbool)
+        else:
+            self.pc_has_quant = True
         self.pc_n += 1
+
+    def _check_light(self, *assumptions):
+        t0 = time.time()
+        r = self.light.check(*assumptions)
+        self.solver_s += time.time() - t0
+        self.queries += 1
+        return r
 
     def _check(self, *assumptions, timeout=None):
         t0 = time.time()
@@ -152,6 +207,10 @@ class CoreMixin:
         dt = time.time() - t0
         self.solver_s += dt
         self.queries += 1
+        if dt > 0.3:
+            import os
+            if os.environ.get('PYVC_SLOW'):
+                print('    [slow %.2fs %s] line %s, %d assertions' % (dt, r, getattr(self, 'cur_line', None), len(self.solver.assertions())))
         return r, dt
 
     def branch(self, cond):
@@ -167,8 +226,8 @@ class CoreMixin:
             self.dec_i += 1
             self.assume(cond if d else z3.Not(cond))
             return d
-        rt, _ = self._check(cond, timeout=self.branch_timeout_ms)
-        rf, _ = self._check(z3.Not(cond), timeout=self.branch_timeout_ms)
+        rt = self._check_light(cond)
+        rf = self._check_light(z3.Not(cond))
         can_t = rt != z3.unsat
         can_f = rf != z3.unsat
         if not can_t and not can_f:
@@ -200,12 +259,37 @@ class CoreMixin:
         if z3.is_true(goal):
             rec.results.append(('unsat', 0.0, None, self.path_no, 'simplifier'))
             return
-        r, dt = self._check(z3.Not(goal))
+        if self.pc_has_quant or has_quantifier(goal):
+            r, dt = z3.unknown, 0.0
+        else:
+            r, dt = self._check(z3.Not(goal), timeout=min(1500, self.check_timeout_ms))
+        if r == z3.unknown:
+            # the incremental core is weak on quantifiers: retry as a one-shot query
+            t0 = time.time()
+            s2 = z3.Solver()
+            s2.set('timeout', self.check_timeout_ms)
+            s2.add(self.solver.assertions())
+            s2.add(z3.Not(goal))
+            r = s2.check()
+            d2 = time.time() - t0
+            self.solver_s += d2
+            dt += d2
+            self.queries += 1
+            if r == z3.sat:
+                self._model_solver = s2
         if r == z3.unsat:
             rec.results.append(('unsat', dt, None, self.path_no, 'z3'))
         elif r == z3.sat:
             rec.results.append(('sat', dt, self.capture_model(), self.path_no, 'z3'))
         else:
+            import os
+            if os.environ.get('PYVC_DUMP'):
+                fn = os.path.join(os.environ['PYVC_DUMP'], '%s_%d.smt2' % (oid.replace('/', '_').replace(':', '_'), self.path_no))
+                s2 = z3.Solver()
+                s2.add(self.solver.assertions())
+                s2.add(z3.Not(goal))
+                with open(fn, 'w') as f:
+                    f.write(s2.to_smt2())
             r2 = self.second_opinion(goal)
             if r2 == 'unsat':
                 rec.results.append(('unsat', dt, None, self.path_no, 'cvc5'))
@@ -227,7 +311,19 @@ class CoreMixin:
         '''Vacuity guard: is this point reachable under the assumptions?'''
         if self.covers.get(label) == 'reachable':
             return
-        r, _ = self._check(*( [extra] if extra is not None else []), timeout=self.branch_timeout_ms)
+        if self.pc_has_quant:
+            s2 = z3.Solver()
+            s2.set('timeout', self.check_timeout_ms)
+            s2.add(self.solver.assertions())
+            if extra is not None:
+                s2.add(extra)
+            t0 = time.time()
+            r = s2.check()
+            self.solver_s += time.time() - t0
+            if r == z3.unknown and self._check_light() == z3.unsat:
+                r = z3.unsat
+        else:
+            r, _ = self._check(*( [extra] if extra is not None else []), timeout=self.branch_timeout_ms)
         if r == z3.sat:
             self.covers[label] = 'reachable'
         elif r == z3.unknown and self.covers.get(label) != 'reachable':
@@ -237,10 +333,21 @@ class CoreMixin:
 
     def capture_model(self):
         try:
-            m = self.solver.model()
+            ms = getattr(self, '_model_solver', None)
+            self._model_solver = None
+            m = (ms or self.solver).model()
         except z3.Z3Exception:
             return None
         out = {}
+        fs = getattr(self, 'cur_fspec', None)
+        if fs is not None and getattr(fs, 'probes', None):
+            for pname, pnode in fs.probes.items():
+                try:
+                    pv = self.old_eval(pnode)
+                    if pv.z is not None:
+                        out['probe:' + pname] = str(m.eval(pv.z, model_completion=True))[:300]
+                except Exception as err:  # noqa
+                    out['probe:' + pname] = '<not evaluable: %s>' % (str(err)[:60],)
         for name, v in self.model_watch:
             try:
                 if v.z is None:
@@ -262,6 +369,7 @@ class CoreMixin:
         key = (v.z.get_id(), self.st.alloc_k)
         if key in self.wf_seen:
             return
+        self.wf_keep.append(v.z)   # keep the term alive: AST ids are recycled
         c = self.alloc_counter()
         if isinstance(t, (TRef, TPkt)):
             self.wf_seen.add(key)
